@@ -55,7 +55,10 @@ for sid in sorted(os.listdir(root)):
         "other_checks_that_also_fired": others,
     }
     missed = {"C01-C": "C01-R1 (one-read test only for the first read)", "C05-D": "C05-R7", "C07-C": "C07-R7", "C07-D": "C07-R6", "C08-C": "C08-R8",
-              "C10-D": "C10-R7", "C11-D": "C11-R6", "C13-C": "C13-R4 (half-close not delayed)", "C18-D": "C18-R4 (refusal not narrowed)", "C20-C": "C20-R1 (cleanup removes only the temporary file)", "C20-B": "C20-R1 (success means written)"}
+              "C10-D": "C10-R7", "C11-D": "C11-R6", "C13-C": "C13-R4 (half-close not delayed)", "C18-D": "C18-R4 (refusal not narrowed)", "C20-C": "C20-R1 (cleanup removes only the temporary file)", "C20-B": "C20-R1 (success means written)",
+              "C02-F": "C02-R4 (window stays closed)", "C04-E": "C04-R6", "C05-E": "C05-R8 / C11-R6 (address-change block)", "C06-F": "C06-R5", "C07-F": "C07-R8",
+              "C08-F": "C08-R9", "C09-F": "C09-R6", "C11-F": "C11-R6 (fresh record)", "C13-E": "C13-R6 / C07-R4 (wrapper inner reads)", "C17-F": "C17-R1 (every record lowers expiry)",
+              "C18-F": "C18-R3 (minimum assigned before Configure)", "C19-E": "C19-R7"}
     if sid in missed:
         meta["missed_when_first_run"] = True
         meta["check_strengthened_with"] = missed[sid]
